@@ -34,7 +34,8 @@ package shp
 //@   ensures [same] typeof(result) == geom.MultiPoint && len(result.(geom.MultiPoint)) == len(s.Points) && (forall k int :: 0 <= k && k < len(s.Points) ==> samePt(result.(geom.MultiPoint)[k], s.Points[k]))
 //@   modifies nothing
 //@   loop 1 `for i, p := range s.Points`
-//@     invariant fresh(mp) && len(mp) == len(s.Points) && #1 <= len(s.Points) && (forall k int :: 0 <= k && k < #1 ==> samePt(mp[k], s.Points[k]))
+//@     invariant [basic] fresh(mp) && len(mp) == len(s.Points) && #1 <= len(s.Points)
+//@     invariant [q1] (forall k int :: 0 <= k && k < #1 ==> samePt(mp[k], s.Points[k]))
 
 //@ opaque pred partIs(line []geom.Point, pts []shp.Point, start int, end int) = len(line) == end - start && (forall b int :: start <= b && b < end ==> samePt(line[b - start], pts[b]))
 
@@ -46,10 +47,15 @@ package shp
 //@   ensures [points] forall a int :: 0 <= a && a < len(s.Parts) ==> partIs(result.(geom.MultiLineString)[a], s.Points, s.Parts[a], partEnd(s.Parts, len(s.Points), a))
 //@   modifies nothing
 //@   loop 1 `for i := 0; i < len(s.Parts); i++`
-//@     invariant 0 <= i && i <= len(s.Parts) && fresh(pl) && len(pl) == len(s.Parts) && (forall a int :: 0 <= a && a < i ==> fresh(pl[a]) && partIs(pl[a], s.Points, s.Parts[a], partEnd(s.Parts, len(s.Points), a)))
+//@     invariant [basic] 0 <= i && i <= len(s.Parts) && fresh(pl) && len(pl) == len(s.Parts)
+//@     invariant [prev_fresh] forall a int :: 0 <= a && a < i ==> fresh(pl[a])
+//@     invariant [q1] forall a int :: 0 <= a && a < i ==> partIs(pl[a], s.Points, s.Parts[a], partEnd(s.Parts, len(s.Points), a))
+//@     using mention(partIs(pl[i], s.Points, s.Parts[i], partEnd(s.Parts, len(s.Points), i)))
 //@     decreases len(s.Parts) - i
 //@   loop 2 `for j := start; j < end; j++`
-//@     invariant start <= j && j <= end && start == s.Parts[i] && end == partEnd(s.Parts, len(s.Points), i) && 0 <= i && i < len(s.Parts) && fresh(pl) && len(pl) == len(s.Parts) && fresh(pl[i]) && len(pl[i]) == end - start && (forall b int :: start <= b && b < j ==> samePt(pl[i][b - start], s.Points[b])) && (forall a int :: 0 <= a && a < i ==> fresh(pl[a]) && !sameObj(pl[a], pl[i]) && partIs(pl[a], s.Points, s.Parts[a], partEnd(s.Parts, len(s.Points), a)))
+//@     invariant [basic] start <= j && j <= end && start == s.Parts[i] && end == partEnd(s.Parts, len(s.Points), i) && 0 <= i && i < len(s.Parts) && fresh(pl) && len(pl) == len(s.Parts) && fresh(pl[i]) && len(pl[i]) == end - start
+//@     invariant [q1] (forall b int :: start <= b && b < j ==> samePt(pl[i][b - start], s.Points[b]))
+//@     invariant [q2] (forall a int :: 0 <= a && a < i ==> fresh(pl[a]) && !sameObj(pl[a], pl[i]) && partIs(pl[a], s.Points, s.Parts[a], partEnd(s.Parts, len(s.Points), a)))
 //@     decreases end - j
 
 //@ func polygon2geom
@@ -61,10 +67,15 @@ package shp
 //@   ensures [points] forall a int :: 0 <= a && a < len(s.Parts) ==> partIs(result.(geom.Polygon)[a], s.Points, s.Parts[a], partEnd(s.Parts, len(s.Points), a))
 //@   modifies nothing
 //@   loop 1 `for i := 0; i < len(s.Parts); i++`
-//@     invariant 0 <= i && i <= len(s.Parts) && fresh(pg) && len(pg) == len(s.Parts) && (forall a int :: 0 <= a && a < i ==> fresh(pg[a]) && partIs(pg[a], s.Points, s.Parts[a], partEnd(s.Parts, len(s.Points), a)))
+//@     invariant [basic] 0 <= i && i <= len(s.Parts) && fresh(pg) && len(pg) == len(s.Parts)
+//@     invariant [prev_fresh] forall a int :: 0 <= a && a < i ==> fresh(pg[a])
+//@     invariant [q1] forall a int :: 0 <= a && a < i ==> partIs(pg[a], s.Points, s.Parts[a], partEnd(s.Parts, len(s.Points), a))
+//@     using mention(partIs(pg[i], s.Points, s.Parts[i], partEnd(s.Parts, len(s.Points), i)))
 //@     decreases len(s.Parts) - i
 //@   loop 2 `for j := end - 1; j >= start; j--`
-//@     invariant start - 1 <= j && j <= end - 1 && start == s.Parts[i] && end == partEnd(s.Parts, len(s.Points), i) && 0 <= i && i < len(s.Parts) && fresh(pg) && len(pg) == len(s.Parts) && fresh(pg[i]) && len(pg[i]) == end - start && (forall b int :: j < b && b < end ==> samePt(pg[i][b - start], s.Points[b])) && (forall a int :: 0 <= a && a < i ==> fresh(pg[a]) && !sameObj(pg[a], pg[i]) && partIs(pg[a], s.Points, s.Parts[a], partEnd(s.Parts, len(s.Points), a)))
+//@     invariant [basic] start - 1 <= j && j <= end - 1 && start == s.Parts[i] && end == partEnd(s.Parts, len(s.Points), i) && 0 <= i && i < len(s.Parts) && fresh(pg) && len(pg) == len(s.Parts) && fresh(pg[i]) && len(pg[i]) == end - start
+//@     invariant [q1] (forall b int :: j < b && b < end ==> samePt(pg[i][b - start], s.Points[b]))
+//@     invariant [q2] (forall a int :: 0 <= a && a < i ==> fresh(pg[a]) && !sameObj(pg[a], pg[i]) && partIs(pg[a], s.Points, s.Parts[a], partEnd(s.Parts, len(s.Points), a)))
 //@     decreases j - start + 1
 
 //@ func geom2multiPoint
@@ -74,7 +85,8 @@ package shp
 //@   requires [fits_int32] len(g) <= 2147483647
 //@   ensures [same] typeof(result) == *shp.MultiPoint && result.(*shp.MultiPoint) != nil && len(result.(*shp.MultiPoint).Points) == len(g) && result.(*shp.MultiPoint).NumPoints == len(g) && (forall k int :: 0 <= k && k < len(g) ==> samePt(g[k], result.(*shp.MultiPoint).Points[k]))
 //@   loop 1 `for i, p := range g`
-//@     invariant mp != nil && fresh(mp) && fresh(mp.Points) && len(mp.Points) == len(g) && mp.NumPoints == len(g) && #1 <= len(g) && (forall k int :: 0 <= k && k < #1 ==> samePt(g[k], mp.Points[k]))
+//@     invariant [basic] mp != nil && fresh(mp) && fresh(mp.Points) && len(mp.Points) == len(g) && mp.NumPoints == len(g) && #1 <= len(g)
+//@     invariant [q1] (forall k int :: 0 <= k && k < #1 ==> samePt(g[k], mp.Points[k]))
 
 // Ring copy of geom2polygon: same vertices in the same order, plus the first
 // vertex again when the ring was not closed.
@@ -85,9 +97,12 @@ package shp
 //@   mode fp
 //@   ensures [type] typeof(result) == *shp.PolyLine
 //@   loop 1 `for i, r := range g`
-//@     invariant fresh(parts) && len(parts) == len(g) && #1 <= len(g) && (forall a int :: 0 <= a && a < #1 ==> fresh(parts[a]) && ringCopied(parts[a], g[a]) && len(parts[a]) == len(g[a]))
+//@     invariant [basic] fresh(parts) && len(parts) == len(g) && #1 <= len(g)
+//@     invariant [q1] (forall a int :: 0 <= a && a < #1 ==> fresh(parts[a]) && ringCopied(parts[a], g[a]) && len(parts[a]) == len(g[a]))
 //@   loop 2 `for j, l := range r`
-//@     invariant fresh(parts) && len(parts) == len(g) && #1 < len(g) && #2 <= len(r) && r == g[#1] && fresh(parts[#1]) && len(parts[#1]) == len(r) && (forall k int :: 0 <= k && k < #2 ==> samePt(r[k], parts[#1][k])) && (forall a int :: 0 <= a && a < #1 ==> fresh(parts[a]) && !sameObj(parts[a], parts[#1]) && ringCopied(parts[a], g[a]) && len(parts[a]) == len(g[a]))
+//@     invariant [basic] fresh(parts) && len(parts) == len(g) && #1 < len(g) && #2 <= len(r) && r == g[#1] && fresh(parts[#1]) && len(parts[#1]) == len(r)
+//@     invariant [q1] (forall k int :: 0 <= k && k < #2 ==> samePt(r[k], parts[#1][k]))
+//@     invariant [q2] (forall a int :: 0 <= a && a < #1 ==> fresh(parts[a]) && !sameObj(parts[a], parts[#1]) && ringCopied(parts[a], g[a]) && len(parts[a]) == len(g[a]))
 //@   assert [parts_are_copies] `return shp.NewPolyLine(parts)` len(parts) == len(g) && (forall a int :: 0 <= a && a < len(g) ==> ringCopied(parts[a], g[a]) && len(parts[a]) == len(g[a]))
 
 //@ func geom2polygon
@@ -100,6 +115,8 @@ package shp
 //@     invariant [fresh_parts] forall a int :: 0 <= a && a < #1 ==> fresh(parts[a])
 //@     invariant [copied] forall a int :: 0 <= a && a < #1 ==> ringCopied(parts[a], g[a])
 //@   loop 2 `for j := len(r) - 1; j >= 0; j--`
-//@     invariant fresh(parts) && len(parts) == len(g) && #1 < len(g) && -1 <= j && j <= len(r) - 1 && r == g[#1] && fresh(parts[#1]) && len(parts[#1]) == len(r) && (forall k int :: j < k && k < len(r) ==> samePt(r[k], parts[#1][k])) && (forall a int :: 0 <= a && a < #1 ==> fresh(parts[a]) && !sameObj(parts[a], parts[#1]) && ringCopied(parts[a], g[a]))
+//@     invariant [basic] fresh(parts) && len(parts) == len(g) && #1 < len(g) && -1 <= j && j <= len(r) - 1 && r == g[#1] && fresh(parts[#1]) && len(parts[#1]) == len(r)
+//@     invariant [q1] (forall k int :: j < k && k < len(r) ==> samePt(r[k], parts[#1][k]))
+//@     invariant [q2] (forall a int :: 0 <= a && a < #1 ==> fresh(parts[a]) && !sameObj(parts[a], parts[#1]) && ringCopied(parts[a], g[a]))
 //@     decreases j + 1
 //@   assert [rings_copied_and_closed] `p := shp.Polygon(*shp.NewPolyLine(parts))` len(parts) == len(g) && (forall a int :: 0 <= a && a < len(g) ==> ringCopied(parts[a], g[a]))
